@@ -478,6 +478,9 @@ def finish(res, level, checker_cmd, rule, explanation=None):
         else:
             reported.append((what, replay))
     os.makedirs(os.path.join(VERIF, "replays", pid), exist_ok=True)
+    for old in os.listdir(os.path.join(VERIF, "replays", pid)):     # replay files of earlier runs are not this run's
+        if re.fullmatch(r"(violation-\d+\.txt|unproved-\d+\.json)", old):
+            os.remove(os.path.join(VERIF, "replays", pid, old))
     lines = []
     status = 0
     for k in res.known:
